@@ -1,0 +1,48 @@
+//go:build verif
+
+// Contracts for package timepb, read by the verifier in /verif (govc). Comments only.
+// "mode math": every Go integer is a mathematical integer with explicit wrap-around on each operation;
+// contract arithmetic is unbounded.
+
+package timepb
+
+//@ func Compare
+//@   property C17
+//@   mode math
+//@   panics when t1 == nil || t2 == nil
+//@   ensures[lexicographic] result == ite(t1.Seconds == t2.Seconds && t1.Nanos == t2.Nanos, 0, ite(t1.Seconds < t2.Seconds || (t1.Seconds == t2.Seconds && t1.Nanos < t2.Nanos), -1, 1))
+//@   ensures[chronological] (0 <= t1.Nanos && t1.Nanos < 1000000000 && 0 <= t2.Nanos && t2.Nanos < 1000000000) ==> result == sign(t1.Seconds*1000000000 + t1.Nanos - (t2.Seconds*1000000000 + t2.Nanos))
+
+//@ func DurationIsNegative
+//@   property C17
+//@   mode math
+//@   panics when d == nil
+//@   ensures[sign] result <==> d.Seconds < 0 || (d.Seconds == 0 && d.Nanos < 0)
+
+//@ func overflowPanic
+//@   inline
+
+//@ func Add
+//@   property C17
+//@   mode math
+//@   requires[d] t != nil ==> d != nil
+//@   requires[valid-t] t != nil ==> -62135596800 <= t.Seconds && t.Seconds <= 253402300799 && 0 <= t.Nanos && t.Nanos < 1000000000
+//@   requires[valid-d] t != nil ==> -315576000000 <= d.Seconds && d.Seconds <= 315576000000 && -1000000000 < d.Nanos && d.Nanos < 1000000000
+//@   requires[valid-d-sign] t != nil ==> !(d.Seconds > 0 && d.Nanos < 0) && !(d.Seconds < 0 && d.Nanos > 0)
+//@   ensures[nil] t == nil ==> result == nil
+//@   ensures[fresh] t != nil ==> result != nil && result != t && fresh(result)
+//@   ensures[normalised] t != nil ==> 0 <= result.Nanos && result.Nanos < 1000000000
+//@   ensures[exact] t != nil ==> result.Seconds*1000000000 + result.Nanos == t.Seconds*1000000000 + t.Nanos + d.Seconds*1000000000 + d.Nanos
+
+//@ func Add#overflow
+//@   property C17
+//@   mode math
+//@   note arbitrary 64-bit seconds, normalised nanos: the seconds sum leaving int64 must panic, never wrap
+//@   requires[non-nil] t != nil && d != nil
+//@   requires[nanos-t] 0 <= t.Nanos && t.Nanos < 1000000000
+//@   requires[nanos-d] -1000000000 < d.Nanos && d.Nanos < 1000000000
+//@   requires[valid-d-sign] !(d.Seconds > 0 && d.Nanos < 0) && !(d.Seconds < 0 && d.Nanos > 0)
+//@   panics when t.Seconds + d.Seconds + ite(t.Nanos + d.Nanos >= 1000000000, 1, ite(t.Nanos + d.Nanos < 0, -1, 0)) > 9223372036854775807
+//@   panics when t.Seconds + d.Seconds + ite(t.Nanos + d.Nanos >= 1000000000, 1, ite(t.Nanos + d.Nanos < 0, -1, 0)) < -9223372036854775808
+//@   ensures[exact] result.Seconds*1000000000 + result.Nanos == t.Seconds*1000000000 + t.Nanos + d.Seconds*1000000000 + d.Nanos
+//@   ensures[normalised] 0 <= result.Nanos && result.Nanos < 1000000000
